@@ -6,7 +6,8 @@ From Coq Require Import List NArith ZArith PArith Bool Lia.
 Import ListNotations.
 Require Import Verif.Relmod.Model.
 
-Definition item_path {P} (it:sitem P) : P := match it with IRow p _ _ | ITag p _ | IAnno p _ => p end.
+Definition item_path {P} (it:sitem P) : P :=
+  match it with IRow p _ _ | ITag p _ | IAnno p _ _ | ISrcAnno p _ _ | ISrc p _ _ => p end.
 Definition is_row {P} (it:sitem P) : bool := match it with IRow _ _ _ => true | _ => false end.
 Definition row_paths (its:list (sitem (list N))) : list (list N) := map item_path (filter is_row its).
 
@@ -93,18 +94,26 @@ Proof.
   rewrite row_paths_app, IH. reflexivity.
 Qed.
 
+(* what normalizeStatementMeta emits: no Stmt row, every item at the path it was given *)
+Lemma smeta_items {P} (q:P) a it : In it (smeta q a) -> is_row it = false /\ item_path it = q.
+Proof.
+  unfold smeta. rewrite !in_app_iff, in_map_iff, in_concat. intros [(x & <- & _)|[(l & Hl & Hin)|Hin]].
+  - split; reflexivity.
+  - apply in_map_iff in Hl. destruct Hl as (an & <- & _). unfold sanno in Hin.
+    destruct Hin as [<-|Hin]; [split; reflexivity|]. destruct (an_srcs an); [destruct Hin|].
+    destruct Hin as [<-|[]]. split; reflexivity.
+  - unfold ssrc in Hin. destruct (a_srcs a); [destruct Hin|]. destruct Hin as [<-|[]]. split; reflexivity.
+Qed.
+
 Lemma row_paths_smeta p a : row_paths (smeta p a) = [].
 Proof.
-  unfold row_paths, smeta. rewrite filter_app.
-  assert (H1 : forall l, filter is_row (map (ITag p) l) = []) by (induction l; cbn; auto).
-  assert (H2 : forall l, filter is_row (map (@IAnno (list N) p) l) = []) by (induction l; cbn; auto).
-  rewrite H1, H2. reflexivity.
+  unfold row_paths. assert (H : filter is_row (smeta p a) = []); [|rewrite H; reflexivity].
+  generalize (smeta_items p a). induction (smeta p a) as [|it l IH]; intros H; [reflexivity|].
+  cbn [filter]. rewrite (proj1 (H it (or_introl eq_refl))). apply IH. intros x Hx. apply H. right; exact Hx.
 Qed.
 
 Lemma not_row_in_smeta {P} (q:P) a p c t : ~ In (IRow p c t) (smeta q a).
-Proof.
-  unfold smeta. rewrite in_app_iff, !in_map_iff. intros [(x & H & _)|(x & H & _)]; discriminate.
-Qed.
+Proof. intros H. apply smeta_items in H. destruct H as [H _]. discriminate. Qed.
 
 (* ---------- the statement at a position ---------- *)
 Inductive node_at : stmt -> list N -> Z -> label -> Prop :=
@@ -130,14 +139,12 @@ Lemma path_items_prefix st : forall idx it, In it (path_items st idx) -> exists 
 Proof.
   induction st as [k t a|k t a body IH|a chs IH] using stmt_ind'; intros idx it Hin; cbn [path_items] in Hin.
   - destruct (hidden k t); [destruct Hin|]. destruct Hin as [<-|Hin]; [exists []; cbn; rewrite app_nil_r; reflexivity|].
-    unfold smeta in Hin. rewrite in_app_iff, !in_map_iff in Hin.
-    destruct Hin as [(x & <- & _)|(x & <- & _)]; exists []; cbn; rewrite app_nil_r; reflexivity.
+    apply smeta_items in Hin. destruct Hin as [_ ->]. exists []. rewrite app_nil_r. reflexivity.
   - rewrite in_app_iff in Hin. destruct Hin as [Hin|Hin].
     + apply In_concat_mapi in Hin. destruct Hin as (i & c & Hn & Hin).
       destruct (Forall_nth _ _ _ _ IH Hn _ _ Hin) as (r & ->). rewrite <- app_assoc. eexists; reflexivity.
     + destruct Hin as [<-|Hin]; [exists []; cbn; rewrite app_nil_r; reflexivity|].
-      unfold smeta in Hin. rewrite in_app_iff, !in_map_iff in Hin.
-      destruct Hin as [(x & <- & _)|(x & <- & _)]; exists []; cbn; rewrite app_nil_r; reflexivity.
+      apply smeta_items in Hin. destruct Hin as [_ ->]. exists []. rewrite app_nil_r. reflexivity.
   - rewrite in_app_iff in Hin. destruct Hin as [Hin|Hin].
     + apply In_concat_mapi in Hin. destruct Hin as (i & ch & Hn & Hin). rewrite in_app_iff in Hin.
       destruct Hin as [Hin|[<-|[]]].
@@ -147,8 +154,7 @@ Proof.
       * cbn [item_path]. eexists; reflexivity.
     + assert (Hl : exists r, last_choice_path idx (length chs) = idx ++ r).
       { unfold last_choice_path. destruct (length chs); [exists []; rewrite app_nil_r; reflexivity|eexists; reflexivity]. }
-      destruct Hl as (r & Hl). unfold smeta in Hin. rewrite in_app_iff, !in_map_iff in Hin.
-      destruct Hin as [(x & <- & _)|(x & <- & _)]; exists r; cbn [item_path]; exact Hl.
+      destruct Hl as (r & Hl). apply smeta_items in Hin. destruct Hin as [_ ->]. exists r. exact Hl.
 Qed.
 
 (* the Stmt rows below idx are exactly the visible statements of st, at their positions *)
@@ -295,7 +301,7 @@ Proof.
 Qed.
 
 (* ---------- before the fix: append(parentIndex, i) into shared spare capacity ---------- *)
-Definition no_attrs : attrs := {| a_tags := []; a_annos := [] |}.
+Definition no_attrs : attrs := {| a_tags := []; a_annos := []; a_srcs := [] |}.
 Definition act (t:positive) : stmt := SLeaf LAction t no_attrs.
 Definition cond (t:positive) (b:list stmt) : stmt := SBlock BCond t no_attrs b.
 (* if a: if b: if c: [if d: x ; y1 ; y2]  (the probed input) *)
